@@ -136,6 +136,7 @@ func NewEvent(transactions [][]byte,
 		Index:                index,
 		Timestamp:            time.Now().Unix(),
 	}
+	simEventBody(&body)
 	return &Event{
 		Body: body,
 	}
